@@ -679,6 +679,11 @@ func genC17(repo string) (string, error) {
 		return "", err
 	}
 	sb.WriteString(r8)
+	r10, err := genC17Round10(repo)
+	if err != nil {
+		return "", err
+	}
+	sb.WriteString(r10)
 	return sb.String(), nil
 }
 
